@@ -88,6 +88,7 @@ def hRpUpdate (db : DB R) (mv uuid name : Nat) (parent : Option (Option Nat)) : 
     | .ok db' => (db', r200)
     | .error .dbDuplicate => (db, r409 .duplicateName)
     | .error .objectAction => (db, r400)
+    | .error .notFound => (db, r404)
     | .error _ => (db, r500)
 
 def hRpDelete (db : DB R) (uuid : Nat) : DB R × Resp :=
